@@ -2,7 +2,7 @@
 import itertools
 from .. import model, sweep
 from ..runner import Result
-from ..bridge import build, quiet, all_nodes, raw_leaves, extract, compare_written
+from ..bridge import build, quiet, all_nodes, raw_leaves, extract, compare_written, build_any
 
 from trees import transform
 
@@ -55,7 +55,7 @@ def check_one(mtj, op, relc, order=None):
         out.append({'kind': kind, 'where': op, 'case': case,
                     'detail': '%s [input %s, relc=%r]' % (detail, model.mt_str(mt.root, mt.toks), relc),
                     'what': '%s: %s' % (op, kind)})
-    t = build(mt, child_order=order)
+    t = build_any(mt, order)
     nodes = all_nodes(t)
     before = {id(x): x.parent for x in nodes}
     toks = sorted(raw_leaves(t), key=lambda x: x.data['num'])
@@ -124,7 +124,7 @@ def check_one(mtj, op, relc, order=None):
                 bad('symetrify-placement', 'token %d (%r) was moved into %s which contains no other paired punctuation%s'
                     % (x.data['num'], x.data['word'], x.parent.data['label'],
                        '' if relc is None else ' and no token preceding a %s' % relc))
-    if moved and order is None and not out:
+    if moved and order in (None, 'export') and not out:
         # the token order and structure as the user gets them from the writers
         try:
             shown = extract(t)
@@ -198,7 +198,7 @@ def run_chunk(chunk):
                 j = mt.to_json()
                 for op, relc in ops_for(n):
                     idx += 1
-                    vs, nmoved = check_one(j, op, relc, None if idx % 2 else 'rev')
+                    vs, nmoved = check_one(j, op, relc, (None, 'rev', 'export')[idx % 3])
                     res.evals += 1
                     if nmoved:
                         res.nontrivial += 1
